@@ -3982,6 +3982,45 @@ fn main() {
             println!("tables={}", v::table_numbers(&o).len());
             println!("wrong={}", wrong);
         }
+        // truncated_table_read : on the disk file system: old values in a deep level, new values in a newer table; the newer table is opened
+        // (a few reads), then its file is cut to a quarter of its length; every key is read with fill_cache = false: the new value
+        // or an error - never the old value, never "not found"
+        "truncated_table_read" => {
+            use raindb::{ReadOptions, WriteOptions};
+            let tmp = raindb::fs::TmpFileSystem::new(None);
+            let root = tmp.get_root_path();
+            let disk: std::sync::Arc<dyn raindb::fs::FileSystem> = std::sync::Arc::new(tmp);
+            let mut o = raindb::DbOptions::with_memory_env();
+            o.filesystem_provider = std::sync::Arc::clone(&disk);
+            o.db_path = "db".to_string();
+            o.create_if_missing = true;
+            o.max_block_size = 512;
+            let db = raindb::DB::open(o.clone()).expect("open");
+            let keys: Vec<Vec<u8>> = (0..400u32).map(|i| format!("key{:04}", i).into_bytes()).collect();
+            for k in &keys { db.put(WriteOptions::default(), k.clone(), [&b"old-"[..], k].concat()).unwrap(); }
+            let _ = db.flush_for_verif();
+            db.compact_range(None..None);
+            for k in &keys { db.put(WriteOptions::default(), k.clone(), [&b"new-"[..], k].concat()).unwrap(); }
+            let _ = db.flush_for_verif();
+            let newest = *v::table_numbers(&o).iter().max().unwrap();
+            for k in keys.iter().take(3) { let _ = db.get(ReadOptions::default(), k); }
+            let path = root.join(v::table_path(&o, newest));
+            let len = std::fs::metadata(&path).map(|m| m.len()).unwrap_or(0);
+            let cut = std::fs::OpenOptions::new().write(true).open(&path).and_then(|f| f.set_len(len / 4)).is_ok();
+            let (mut stale, mut errors) = (0usize, 0usize);
+            for k in &keys {
+                match db.get(ReadOptions { fill_cache: false, snapshot: None }, k) {
+                    Ok(val) if val == [&b"new-"[..], k.as_slice()].concat() => {}
+                    Ok(_) => stale += 1,
+                    Err(raindb::RainDBError::KeyNotFound) => stale += 1,
+                    Err(_) => errors += 1,
+                }
+            }
+            println!("truncated={} ({} -> {} bytes)", cut, len, len / 4);
+            println!("keys={}", keys.len());
+            println!("stale={}", stale);
+            println!("errors={}", errors);
+        }
         // manifest_codec : edits of trivial moves (file n deleted at level L, added at level L + 1) and a mixed edit are encoded
         // and decoded by the real codec
         "manifest_codec" => {
